@@ -2421,6 +2421,54 @@ theorem handleEvent_stream_nonsteady {c : Conn} (hl : c.legacy = false) (hs : c.
       · exact ⟨hw.trans hr'.1.still, hr'.2⟩
     · exact ⟨hw, Or.inr ⟨_, rfl, trivial⟩⟩
 
+/-- After the server's close (state `ServerClosing`) only what the socket itself does is forgiven:
+    the end of the stream and a read error never become the result of a stream event (an error
+    raised while frames are processed - `malformedFrame` - still does). -/
+theorem handleEvent_stream_serverClosing {c : Conn} (hl : c.legacy = false)
+    (hs : c.st.isServerClosing = true) (r w : Bool) :
+    (handleEvent c (.stream r w)).2.2 ≠ some .unexpectedSocketClose ∧
+    (handleEvent c (.stream r w)).2.2 ≠ some .ioErrorReadingSocket ∧
+    (handleEvent c (.stream r w)).2.2 ≠ some .malformedFrame := by
+  have hst : c.st ≠ .steady := by
+    intro h; rw [h] at hs; exact absurd hs (by decide)
+  have hw := still_writeToStream c
+  have hwe := (writeToStream_spec c).2.2.2.2.2.2.2.2.2
+  have hl' : (writeToStream c).1.legacy = false := hw.legacy.trans hl
+  have hst' : (writeToStream c).1.st ≠ .steady := by rw [hw.st]; exact hst
+  have hr := (readFromStream_nonsteady hl hst).1
+  have hr' := (readFromStream_nonsteady hl' hst').1
+  have e1 : (readFromStream c).1.legacy = false := hr.legacy.trans hl
+  have e2 : (readFromStream c).1.st.isServerClosing = true := by rw [hr.st]; exact hs
+  have e1' : (readFromStream (writeToStream c).1).1.legacy = false := hr'.legacy.trans hl'
+  have e2' : (readFromStream (writeToStream c).1).1.st.isServerClosing = true := by
+    rw [hr'.st, hw.st]; exact hs
+  have key : ∀ (b : Bool) (c2 : Conn) (wr : Bytes) (e : Option Err),
+      (if (b || (decide (e = some Err.unexpectedSocketClose) || decide (e = some Err.ioErrorReadingSocket) || decide (e = some Err.malformedFrame))) = true
+        then (c2, wr, (none : Option Err)) else (c2, wr, e)).2.2 ≠ some .unexpectedSocketClose ∧
+      (if (b || (decide (e = some Err.unexpectedSocketClose) || decide (e = some Err.ioErrorReadingSocket) || decide (e = some Err.malformedFrame))) = true
+        then (c2, wr, (none : Option Err)) else (c2, wr, e)).2.2 ≠ some .ioErrorReadingSocket ∧
+      (if (b || (decide (e = some Err.unexpectedSocketClose) || decide (e = some Err.ioErrorReadingSocket) || decide (e = some Err.malformedFrame))) = true
+        then (c2, wr, (none : Option Err)) else (c2, wr, e)).2.2 ≠ some .malformedFrame := by
+    intro b c2 wr e
+    split
+    · exact ⟨by simp, by simp, by simp⟩
+    · rename_i h
+      exact ⟨fun h2 => h (by simp [show e = _ from h2]), fun h2 => h (by simp [show e = _ from h2]),
+        fun h2 => h (by simp [show e = _ from h2])⟩
+  unfold handleEvent
+  cases w <;> cases r <;> simp only [Bool.false_eq_true, ↓reduceIte]
+  · exact ⟨by simp, by simp, by simp⟩
+  · simp only [e1, e2, Bool.not_false, Bool.true_and]
+    exact key _ _ _ _
+  · rcases hwe with h | h <;> rw [h]
+    · exact ⟨by simp, by simp, by simp⟩
+    · exact ⟨by simp, by simp, by simp⟩
+  · rcases hwe with h | h <;> rw [h]
+    · dsimp only
+      simp only [e1', e2', Bool.not_false, Bool.true_and]
+      exact key _ _ _ _
+    · exact ⟨by simp, by simp, by simp⟩
+
 /-! ### Channel events with writes sealed -/
 
 /-- What a sealed state keeps (`SealedEq c c'`: `c'` is sealed and agrees with `c` on state,
